@@ -63,3 +63,23 @@ package structs
 // what is rebuilt has the length the stream announces (its first word), whatever the receiver held
 // before: a longer receiver is cut down, so the bytes consumed are the bytes that were written
 //@   ensures implies(isnil(err), len(v) == lastword(r))
+
+// A decoder stores what it decodes in the caller's object (C08; finding F41): see /verif/cmd/lvc/fieldordercheck.go
+//@ decodes Map.ReadFrom
+//@   property C08
+//
+//@ decodes Map.UnmarshalBinary
+//@   property C08
+//
+//@ decodes Matrix.ReadFrom
+//@   property C08
+//
+//@ decodes Matrix.UnmarshalBinary
+//@   property C08
+//
+//@ decodes Vector.ReadFrom
+//@   property C08
+//
+//@ decodes Vector.UnmarshalBinary
+//@   property C08
+//
